@@ -63,6 +63,9 @@ func c20Run(w *W, c Case) {
 			w.Class("history/shuffled")
 		}
 		for _, y := range ys {
+			if w.Full() {
+				return
+			}
 			c20Year(w, y)
 		}
 		w.Count("single-process-history-passes", 1)
@@ -137,13 +140,25 @@ func c20Year(w *W, y int) {
 			if strings.Join(a, "|") != strings.Join(b, "|") {
 				w.Violatef("festivals", key, "festivals of %s (weekday %d, occurrence %d of %d) = %v, rules give %v", key, wd, occ[wd], total[wd], gf, want)
 			}
-			if go2, wo := listStrings(s.GetOtherFestivals()), SolarUtil.OTHER_FESTIVAL[fmt.Sprintf("%d-%d", m, d)]; strings.Join(go2, "|") != strings.Join(wo, "|") {
+			go2l := listStrings(s.GetOtherFestivals())
+			if go2, wo := go2l, SolarUtil.OTHER_FESTIVAL[fmt.Sprintf("%d-%d", m, d)]; strings.Join(go2, "|") != strings.Join(wo, "|") {
 				w.Violatef("other-festivals", key, "other festivals of %s = %v, table has %v", key, go2, wo)
 			}
 			if len(want) > 1 {
 				w.Count("days-with-two-festivals", 1)
 			}
-			w.Eval(4)
+			// the answers are the day's, not the caller's history: rendering the day, or a caller appending to a list it was
+			// handed, must not change what the next question gets
+			_ = s.ToFullString() + s.String()
+			if d%5 == 0 {
+				s.GetFestivals().PushBack("(caller's note)")
+				s.GetOtherFestivals().PushBack("(caller's note)")
+			}
+			s2 := calendar.NewSolarFromYmd(y, m, d)
+			if g2, o2 := listStrings(s2.GetFestivals()), listStrings(s2.GetOtherFestivals()); strings.Join(g2, "|") != strings.Join(gf, "|") || strings.Join(o2, "|") != strings.Join(go2l, "|") {
+				w.Violatef("festivals-stable", key, "festivals of %s asked again after rendering the day: %v / %v, first answer %v / %v", key, g2, o2, gf, go2l)
+			}
+			w.Eval(5)
 			w.Distinct(1)
 		}
 	}
